@@ -929,7 +929,11 @@ def c12(run):
                                                {"flavour": "r", "reject": True, "yymore": True, "instances": True, "stack": False, "heap": True},
                                                {"flavour": "r", "reject": True, "yymore": False, "instances": True, "stack": False},
                                                {"flavour": "c99", "reject": True, "yymore": True, "instances": True, "stack": False},
-                                               {"flavour": "c99", "reject": True, "yymore": False, "instances": True, "stack": False, "heap": True}],
+                                               {"flavour": "c99", "reject": True, "yymore": False, "instances": True, "stack": False, "heap": True},
+                                               # C++ lexer objects (one VLexer per instance), with and without REJECT / yymore
+                                               {"flavour": "cxx", "reject": True, "yymore": True, "instances": True, "stack": False},
+                                               {"flavour": "cxx", "reject": False, "yymore": False, "instances": True, "stack": False},
+                                               {"flavour": "cxx", "reject": True, "yymore": True, "instances": True, "stack": False, "array": False, "interactive": True}],
                                tag="product", san=True)
     ok = [c for c in cases if c.status == "ok"]
     wd = os.path.join(run.work, "inst"); os.makedirs(wd, exist_ok=True)
@@ -939,7 +943,7 @@ def c12(run):
     # a ThreadSanitizer build of each scanner for the threaded runs
     def tsan(c):
         exe = c.gen["exe"] + ".tsan"
-        q_ = subprocess.run(["gcc", "-O1", "-g", "-w", "-D_GNU_SOURCE", "-fsanitize=thread"] + (["-DVF_TABLESFILE"] if c.cfg.get("tablesfile") else []) +
+        q_ = subprocess.run(["g++" if c.cfg.get("flavour") == "cxx" else "gcc", "-O1", "-g", "-w", "-D_GNU_SOURCE", "-fsanitize=thread"] + ["-D" + d for d in c.gen.get("defs", [])] + (["-DVF_TABLESFILE"] if c.cfg.get("tablesfile") else []) +
                             ["-I", fd, "-o", exe, c.gen["c"], "-lpthread"],
                             stdout=subprocess.PIPE, stderr=subprocess.STDOUT, text=True)
         c.tsan = exe if q_.returncode == 0 else None
@@ -992,7 +996,7 @@ def c12(run):
     _prefix_unit(run, fd, srcs[:3])
     run.sample(dict(kind="schedule", interleaving=schedules[len(schedules) // 2], instances=3, calls_each=2))
     run.assumptions += ["'no state is raced on' is observed by ThreadSanitizer attached to the threaded runs (DESIGN.md section 9), not decided by TLC",
-                        "C++ lexer objects: isolation exercised by the prefix/link unit only (c99 scanners run in the instance harness like reentrant C ones)"]
+                        "reentrant C, c99 and C++ lexer objects (one VLexer per instance) run in the same instance harness"]
 
 
 def _prefix_unit(run, fd, srcs):
